@@ -186,7 +186,7 @@ structure MinedInv (K : Keys) (W : Tx → Prop) (ν : OutPoint → Nat) (A : Out
 
 theorem minedStep_ok {K : Keys} {W : Tx → Prop} {rank : TxId → Nat} {u0 : UT} {ν : OutPoint → Nat}
     {A : OutPoint → Prop} {Cf : TxId → Prop} (U : Univ2 K W rank u0 ν) (hAC : ∀ o, A o → Cf o.1)
-    (t : T2S) (n : Nat) (s : State) (h : MinedInv K W ν A Cf t n s)
+    (t : T2S) (n : Nat) (hn : n < t.tx.outs.length) (s : State) (h : MinedInv K W ν A Cf t n s)
     (hp : (minedStep K t s n).panicked = false) : MinedInv K W ν A Cf t (n + 1) (minedStep K t s n) := by
   have hb := h.ok.w.base
   obtain ⟨t', ht', htx⟩ := h.self
@@ -233,7 +233,7 @@ theorem minedStep_ok {K : Keys} {W : Tx → Prop} {rank : TxId → Nat} {u0 : UT
           obtain ⟨j, hj, hju⟩ := iidx_spec K r _ idx hidx
           have hjm : j ∈ r.tx.ins := List.mem_of_getElem? hj
           have hrW := hb.poolW _ _ hr
-          obtain ⟨jp, jv⟩ := U.uidx_play _ _ _ _ (Play.prev hrW hjm) (Play.self htW) hju
+          obtain ⟨jp, jv⟩ := U.uidx_play _ _ _ _ (Play.prev hrW hjm) (Play.self htW) (VPlay.vin hrW hjm) (VPlay.out htW hn) hju
           have rl := h.ok.w.loc _ _ hr
           -- the flag is set
           have hfl : flag r idx = true := by
@@ -330,21 +330,24 @@ theorem minedFlags_ok {K : Keys} {W : Tx → Prop} {rank : TxId → Nat} {u0 : U
     MinedInv K W ν A Cf t t.tx.outs.length (minedFlags K s t) := by
   rw [minedFlags_eq] at hp ⊢
   unfold iota at hp ⊢
-  have gen : ∀ n, Env s ((List.range n).foldl (minedStep K t) s) ∧
+  have gen : ∀ n, n ≤ t.tx.outs.length → Env s ((List.range n).foldl (minedStep K t) s) ∧
       (((List.range n).foldl (minedStep K t) s).panicked = false →
         MinedInv K W ν A Cf t n ((List.range n).foldl (minedStep K t) s)) := by
     intro n
     induction n with
     | zero =>
+      intro _
       refine ⟨Env.refl s, fun _ => ⟨⟨h.w.mono (fun _ _ _ _ _ _ _ ha => Or.inl ha) (fun _ _ _ hc => hc), h.par⟩,
         ⟨t, hin, rfl⟩, fun _ _ _ _ _ _ _ _ => Nat.zero_le _⟩⟩
     | succ n ih =>
+      intro hle
       rw [List.range_succ, List.foldl_append]
       simp only [List.foldl_cons, List.foldl_nil]
       have e2 := minedStep_env K t ((List.range n).foldl (minedStep K t) s) n
-      refine ⟨ih.1.trans e2, fun hp' => ?_⟩
-      exact minedStep_ok U hAC t n _ (ih.2 (alive_of_env e2 hp')) hp'
-  exact (gen _).2 hp
+      obtain ⟨i1, i2⟩ := ih (by omega)
+      refine ⟨i1.trans e2, fun hp' => ?_⟩
+      exact minedStep_ok U hAC t n (by omega) _ (i2 (alive_of_env e2 hp')) hp'
+  exact (gen _ (Nat.le_refl _)).2 hp
 
 /-! ### unmined: set the flags of the children -/
 
@@ -456,7 +459,7 @@ theorem unminedStep_ok {K : Keys} {W : Tx → Prop} {rank : TxId → Nat} {u0 : 
         obtain ⟨j, hj, hju⟩ := iidx_spec K r _ idx hidx
         have hjm : j ∈ r.tx.ins := List.mem_of_getElem? hj
         have hrW := hb.poolW _ _ hr
-        obtain ⟨jp, jv⟩ := U.uidx_play _ _ _ _ (Play.prev hrW hjm) (Play.self htW) hju
+        obtain ⟨jp, jv⟩ := U.uidx_play _ _ _ _ (Play.prev hrW hjm) (Play.self htW) (VPlay.vin hrW hjm) (VPlay.out htW hn) hju
         have rl := h.ok.w.loc _ _ hr
         obtain ⟨ml, mc⟩ := memOf_spec ν r rl
         have hidxlt : idx < (memOf r).length := by
@@ -557,5 +560,38 @@ theorem unminedFlags_ok {K : Keys} {W : Tx → Prop} {rank : TxId → Nat} {u0 :
     rcases ha with ha | ⟨_, h2, h3⟩
     · exact ha
     · exact absurd h3 (by have h2' : t.tx.outs.length ≤ _ := h2; omega)) (fun _ _ _ hc => hc), fin.ok.par⟩
+
+/-! ### LoadRawTx's "make as own" -/
+
+theorem markLocal_good {K : Keys} {W : Tx → Prop} {u0 : UT} {ν : OutPoint → Nat} (s : State) (id : TxId)
+    (h : PGood K W u0 ν s) : PGood K W u0 ν (markLocal K s id) := by
+  have e := markLocal_env K s id
+  refine PGood.of_env ?_ e
+  unfold markLocal
+  split
+  · rename_i r hr
+    have rl := h.w.loc _ _ hr
+    exact setRec_ok (val := K.bidx id) h (fun _ _ _ _ _ _ _ _ ha => ha) r { r with loc := true } hr rfl rfl rfl rfl rfl rfl
+      ⟨rl.memLen, rl.memCnt, rl.nodupIn, rl.vol, rl.fee⟩
+      (fun k i hk hf => h.par _ _ hr k i hk hf) (fun k i hk hf => h.w.unf _ _ hr k i hk hf)
+  · exact h
+
+theorem submitLocal_good {K : Keys} {W : Tx → Prop} {rank : TxId → Nat} {u0 : UT} {ν : OutPoint → Nat}
+    (U : Univ2 K W rank u0 ν) (mf : Nat) (s : State) (t : Tx) (hc : ChainOK u0 ν s)
+    (h : PGoodP K W u0 ν s) (ht : W t) : PGoodP K W u0 ν (submitLocal K mf s t).2 := by
+  unfold submitLocal
+  dsimp only
+  have e1 := rejDeleteByIdx_env K s (K.bidx t.id)
+  have g1 : PGoodP K W u0 ν (rejDeleteByIdx K s (K.bidx t.id)) :=
+    PGoodP.lift e1 (fun g => g.frame (rejDeleteByIdx_frame K W s _)) h
+  have c1 := hc.of_env e1
+  split
+  · exact PGoodP.lift (markLocal_env K _ _) (fun g => markLocal_good _ t.id g) g1
+  · have e2 := processTx_env K mf (rejDeleteByIdx K s (K.bidx t.id)) t { trusted := true, loc := true }
+    have g2 : PGoodP K W u0 ν (processTx K mf (rejDeleteByIdx K s (K.bidx t.id)) t { trusted := true, loc := true }).2 :=
+      PGoodP.lift e2 (fun g => processTx_good U mf _ t _ c1 g ht (by intro hu; cases hu)) g1
+    split
+    · exact txAccepted_good U mf _ _ (c1.of_env e2) g2
+    · exact g2
 
 end GocoinV.Mempool
